@@ -375,6 +375,7 @@ fn text_route(st: &mut Stats, t: &Tt, n: u32) {
         text_route_one(st, t, n, &format!("gfp Zfix # ({}) & -(forall {} # Zfix)", dnf, names.join(", ")), &ordering);
     }
     partial_ordering_route(st, t, n, &dnf, &names);
+    definition_route(st, t, n, &terms, &ordering);
     // the same diagram under OTHER NAMES for the same ids (identity of a symbol is its id): equal
     // diagrams, equal hashes, and one copy of every node when both live in one environment
     let renamed_text = dnf.replace('x', "other_name_");
@@ -399,6 +400,54 @@ fn text_route(st: &mut Stats, t: &Tt, n: u32) {
             }
         }
         Ok(Err(_)) | Err(_) => st.bump("renamed_route_failed(judged by the formula-text route)"),
+    }
+}
+
+/// A route through DEFINITIONS with a history: the formula is `{outer}`, outer := `{inner} | B`,
+/// and inner is defined as false, then — after an evaluation — as A, as true, and as A again
+/// (A | B being the function's DNF). After each step the result must be the canonical diagram of
+/// what the definitions then say.
+fn definition_route(st: &mut Stats, t: &Tt, n: u32, terms: &[String], ordering: &[NamedSymbol]) {
+    use rsbdd::parser::ReferenceContents;
+    if terms.len() < 2 {
+        return;
+    }
+    let (a, b) = terms.split_at(terms.len() / 2);
+    let (a, b) = (a.join(" | "), b.join(" | "));
+    st.evals += 1;
+    st.bump("route_definitions-with-a-history");
+    let case = json!({"table": t.hex(), "route": "definitions", "text": format!("{{outer}} with outer := {{inner}} | {} and inner := false, {}, true, {}", b, a, a)});
+    util::budget(50_000_000, 200);
+    let ord = ordering.to_vec();
+    let r = guarded(|| -> std::io::Result<Vec<Rc<BDD<NamedSymbol>>>> {
+        let env = Rc::new(BDDEnv::<NamedSymbol>::new());
+        let parse = |text: &str| ParsedFormula::new_with_env(Rc::clone(&env), &mut BufReader::new(text.as_bytes()), Some(ord.clone()));
+        let pf = parse("{outer}")?;
+        pf.define("inner", ReferenceContents::Syntax(parse("false")?.bdd.clone()));
+        pf.define("outer", ReferenceContents::Syntax(parse(&format!("{{inner}} | ({})", b))?.bdd.clone()));
+        let mut out = vec![pf.eval()];
+        for text in [a.as_str(), "true", a.as_str()] {
+            pf.define("inner", ReferenceContents::Syntax(parse(text)?.bdd.clone()));
+            out.push(pf.eval());
+        }
+        Ok(out)
+    });
+    match r {
+        Ok(Ok(out)) => {
+            let vars: Vec<(usize, u32)> = (0..n).map(|i| (text_route_id(i as usize, n as usize), i)).collect();
+            let reference = build_ref(t, &vars);
+            let plain = |d: &Rc<BDD<NamedSymbol>>| -> BDD<usize> { BDD::from(d.as_ref().clone()) };
+            if &plain(&out[1]) != reference.as_ref() || &plain(&out[3]) != reference.as_ref() {
+                st.violate("c02.canonical", "C02:definitions:not-canonical".into(), format!("`{{outer}}` with outer := {{inner}} | {}: after inner := {} (earlier: false; later: true, then {} again) the results are {} and {}, canonical is {}", b, a, a, short(&out[1]), short(&out[3]), short(&reference)), case);
+            } else if !matches!(out[2].as_ref(), BDD::True) {
+                st.violate("c02.canonical", "C02:definitions:valid-function-is-not-the-true-leaf".into(), format!("`{{outer}}` with outer := {{inner}} | {} and inner := true (after earlier definitions and evaluations) evaluates to {}", b, short(&out[2])), case);
+            } else if !t.is_const() {
+                st.nt.insert(mix(t.hash64(), 0x7e89));
+            }
+        }
+        Ok(Err(e)) => st.violate("c02.route-function", "C02:definitions:rejected".into(), format!("definition route rejected: {}", e), case),
+        Err(crate::util::Caught::Budget(_)) => st.bump("step_budget_exceeded(inconclusive case)"),
+        Err(c) => st.violate("c02.panic", format!("C02:definitions:{}", c.signature()), format!("{:?}", c), case),
     }
 }
 
@@ -748,7 +797,7 @@ pub fn replay(_ctx: &Ctx, _monitor: &str, case: &Value, st: &mut Stats) {
         return;
     }
     let Some(t) = case.get("table").and_then(|v| v.as_str()).and_then(Tt::parse_hex) else { return };
-    if case.get("route").and_then(|r| r.as_str()) == Some("formula-text") {
+    if matches!(case.get("route").and_then(|r| r.as_str()), Some("formula-text") | Some("definitions")) {
         text_route(st, &t, t.n);
         return;
     }
